@@ -1,8 +1,19 @@
-"""C36 — bounded run-time contract check (see checks/C36_bounded.py for the contract and scope); proof kernel: see DESIGN §5 C36."""
-from vlib.thin import run_bounded_only
+"""C36 — attribute history reports exactly the net change since load: History.from_scalar_attribute / from_object_attribute
+under proof (documented conventions), mutation sequences on mapped attributes as the bounded complement."""
+import importlib
+import contracts.history  # noqa: F401
+from pyvc.contract import FUNCS
+from vlib.proof import run_proofs
 
-LEVEL = "exploration"
+LEVEL = "proof"
+KEYS = [k for k, c in FUNCS.items() if "C36" in c.props and c.proof and not c.abstract]
 
 
 def run(run, tier, seed, args):
-    run_bounded_only(run, "C36", tier, seed)
+    run_proofs(run, KEYS, tier, update_baseline=args.update_baseline, source_root=args.source_root)
+    if not args.source_root:
+        importlib.import_module("checks.C36_bounded").bounded(run, tier, seed)
+    run.assumptions += [
+        "attribute.is_equal is a pure function; History(...) is the 3-tuple of its arguments",
+        "under proof: from_scalar_attribute, from_object_attribute; from_collection, the impls' set/delete/append/remove and InstanceState._modified_event are in the bounded complement only",
+    ]
